@@ -4,6 +4,11 @@ enum: every presence combination of the five attribute groups x boundary values;
 with the real SFTPAttributes._pack, unpacked with SFTPAttributes._from_msg, and both halves are
 cross-checked against an independent SFTP v3 ATTRS codec (vmc/refs/sftp_attrs.py) so that a
 deviation can be attributed to _pack or to _unpack.
+
+Dimension "observer calls": between construction and encoding, and between decoding and reading the
+fields, the object is looked at with each of repr(), _debug_str(), str() (the ls-style long name the
+server puts in front of every READDIR entry) and asbytes(); looking must not change what is encoded
+or what was decoded.
 """
 import itertools
 
@@ -20,7 +25,11 @@ META = {
             "values (64-bit sizes, 32-bit ids/modes/times incl. float times, extended maps with 1-3 pairs, "
             "empty key/value, non-UTF-8 bytes): 6 720 attribute sets quick / 420 147 thorough (incl. pair groups with one member missing), each packed and "
             "unpacked by the real code and cross-decoded/encoded by an independent SFTP v3 ATTRS codec; "
-            "decoded fields, absent fields, _flags and exact consumption (sentinel after the structure) compared.",
+            "decoded fields, absent fields, _flags and exact consumption (sentinel after the structure) compared.  "
+            "Every attribute set additionally x observer call in {repr(), _debug_str(), str(), asbytes()} made "
+            "(a) between construction and _pack - the encoding and _flags must equal those of the unobserved "
+            "object - and (b) between _unpack and reading the fields - fields and _flags must equal those of "
+            "the unobserved decoded object.",
     "note": "extended attributes use bytes keys/values (the wire type); presence is judged per group "
             "(uid+gid, atime+mtime); float times may be truncated or rounded",
     "design_ref": "4/C33",
@@ -263,7 +272,7 @@ def run_case(a):
         rt_bad = ("exception-" + type(e).__name__, "")
         info["roundtrip_error"] = repr(e)
     if rt_bad is None and pack_bad is None and unpack_bad is None:
-        return repack_check(full, a, lenient, info)
+        return repack_check(full, a, lenient, info) or observer_check(full, a, lenient, wire, at._flags, info)
     # attribute to a site
     if pack_bad is not None and unpack_bad is None:
         clause, cls = pack_bad
@@ -324,6 +333,70 @@ def repack_check(full, eff, lenient, info):
     return None
 
 
+# ways of looking at an attribute set that are not supposed to change it (name -> call); ordered so that
+# the innermost one is blamed: asbytes() calls str(), repr() calls _debug_str()
+OBSERVERS = [
+    ("SFTPAttributes._debug_str", lambda at: at._debug_str()),
+    ("SFTPAttributes.__repr__", repr),
+    ("SFTPAttributes.__str__", str),
+    ("SFTPAttributes.asbytes", lambda at: at.asbytes()),
+]
+
+
+def observer_check(full, eff, lenient, wire, flags, info):
+    """Looking at the object (a) before it is encoded, (b) after it was decoded changes nothing.
+    `wire` (with sentinel) / `flags`: what the unobserved object encoded to."""
+    plain = SFTPAttributes._from_msg(GuardMessage(wire))
+    plain_ref = obj_to_ref(plain)
+    for name, look in OBSERVERS:
+        for with_filename in (False, True):
+            # (a) construct, look, encode
+            at = to_obj(full)
+            if with_filename:
+                at.filename = "f"
+            try:
+                look(at)
+            except Exception as e:      # whether an observer may fail on odd values is not this property
+                info.setdefault("observer_errors", {})[name] = repr(e)
+            try:
+                m = Message()
+                at._pack(m)
+                m.add_int(SENTINEL)
+                w2 = m.asbytes()
+            except Exception as e:
+                info["observer"] = name
+                info["pack_error"] = repr(e)
+                return "encoding-after-observer-call-exception-" + type(e).__name__, name, "", info
+            if w2 != wire or at._flags != flags:
+                info["observer"] = name
+                info["wire_after_observer"] = w2.hex()
+                info["flags_after_observer"] = at._flags
+                try:
+                    rd = R.Reader(w2)
+                    bad = compare(eff, REF.decode(rd), lenient)
+                except ValueError:
+                    bad = None
+                clause = bad[0] if bad else "encoding-differs"
+                return "encoding-after-observer-call-" + clause, name, (bad[1] if bad else ""), info
+            # (b) decode, look, read the fields
+            d = SFTPAttributes._from_msg(GuardMessage(wire))
+            if with_filename:
+                d.filename = "f"
+            try:
+                look(d)
+            except Exception as e:
+                info.setdefault("observer_errors", {})[name] = repr(e)
+            got = obj_to_ref(d)
+            if got != plain_ref:
+                info["observer"] = name
+                info["decoded_then_observed"] = {k: (v if k != "ext" else [[x.hex(), y.hex()] for x, y in v])
+                                                 for k, v in got.items()}
+                bad = compare(eff, got, lenient)
+                clause = bad[0] if bad else "fields-differ"
+                return "decoded-fields-after-observer-call-" + clause, name, (bad[1] if bad else ""), info
+    return None
+
+
 def case_json(a):
     j = {}
     for k, v in a.items():
@@ -364,6 +437,7 @@ def work(item, acc):
             acc.count("cases_with_half_present_pair_group")
         acc.count("mask_%02d" % sum(1 << k for k, g in enumerate(GROUPS) if g in eff))
         acc.count("repack_subcases", len(eff))
+        acc.count("observer_subcases", 2 * 2 * len(OBSERVERS))
         res = run_case(a)
         if "ext" in a:
             acc.count("cases_with_extended")
@@ -383,7 +457,9 @@ def main(tier):
         PID, tier, "exploration",
         "case = one attribute set: per group {size, uid+gid, permissions, atime+mtime, extended} either absent "
         "or one value of the group's boundary domain (full cartesian product); each case is run through real "
-        "_pack -> real _unpack, real _pack -> reference decoder, reference encoder -> real _unpack; "
+        "_pack -> real _unpack, real _pack -> reference decoder, reference encoder -> real _unpack, and again with "
+        "one observer call (repr, _debug_str, str, asbytes; object with and without a filename) before the "
+        "encoding / after the decoding; "
         "nontrivial = distinct attribute sets with at least one group present (all cases are distinct by "
         "construction; the all-absent set is the only trivial one)",
         ["extended attribute keys/values are bytes (the wire type)",
